@@ -13,13 +13,13 @@ CONFIG = {
     'C05': dict(streams=[('inj_hidden', 1200), ('siblings', 240), ('td_wf', 160), ('same_session', 80)], keep='om'),
     'C06': dict(streams=[('inj_overlap', 1200), ('td_wf', 160), ('same_session', 80), ('newreq', 160)], keep='om'),
     'C07': dict(streams=[('inj_cycle', 1040), ('reorder_cycle', 240), ('newreq', 160)], keep='ov'),
-    'C08': dict(streams=[('td_wf', 560), ('bu_wf', 320), ('multi', 80), ('panic', 240), ('abort_bu', 120), ('newreq', 160)], keep='od'),
+    'C08': dict(streams=[('td_wf', 560), ('bu_wf', 320), ('multi', 80), ('panic', 240), ('abort_bu', 120), ('newreq', 160), ('same_abort', 80)], keep='od'),
     'C09': dict(streams=[('td_coarse', 880), ('bu_wf', 320), ('multi', 80)], keep='dv', extra='stampsrc'),
     'C16': dict(streams=[('td_wf', 240), ('bu_wf', 240), ('mixed_wf', 120), ('newreq', 160)], keep='oevdm', two_process=True),
     'C17': dict(streams=[('td_wf', 480), ('bu_wf', 480), ('fail_wf', 240), ('panic', 160), ('failstamp', 160)], keep='v', extra='tracker'),
     'C18': dict(streams=[('fail_wf', 800), ('fail_bu', 500), ('fail_mixed', 300)], keep='eov'),
-    'C19': dict(streams=[('panic', 800), ('abort_bu', 160), ('inj_hidden', 200), ('inj_overlap', 200), ('inj_cycle', 200)], keep='od'),
-    'C20': dict(streams=[('td_class', 320), ('td_wf', 480), ('bu_wf', 240), ('roles', 640)], keep='o'),
+    'C19': dict(streams=[('panic', 800), ('abort_bu', 160), ('inj_hidden', 200), ('inj_overlap', 200), ('inj_cycle', 200), ('same_abort', 120)], keep='od'),
+    'C20': dict(streams=[('td_class', 320), ('td_wf', 480), ('bu_wf', 240), ('roles', 640), ('same_abort', 120)], keep='o'),
 }
 THOROUGH_FACTOR = 12
 
@@ -45,6 +45,10 @@ def make_case(rng, stream, big=False):
         return p, steps, norm_meta({}, 'td')
     if stream == 'same_session':
         p, steps, meta = P.gen_same_session_program(rng)
+        m = norm_meta({}, 'td'); m['impl_only'] = True
+        return p, steps, m
+    if stream == 'same_abort':
+        p, steps, meta = P.gen_same_abort_program(rng)
         m = norm_meta({}, 'td'); m['impl_only'] = True
         return p, steps, m
     if stream == 'mid_session':
@@ -371,7 +375,12 @@ ALSO = {'C01': {('C18', 'stale-output'), ('C18', 'stale-resource'),
         'C03': {('C18', 'stale-after-erring-bottom-up')},
         # "every dependency it declared can cause it to be re-executed or scheduled": a task left stale by a bottom-up build that was
         # told about the change of a resource the task depends on
-        'C08': {('C03', 'stale-after-bottom-up')}}
+        'C08': {('C03', 'stale-after-bottom-up'),
+                # a dependency in the store that no execution recorded is not "exactly those of the latest execution"
+                ('C19', 'phantom-dependency')},
+        'C19': {('C08', 'phantom-dependency')},
+        # such an edge makes later builds abort (cycle) or skip a diagnosis for a violation that does not / does exist now
+        'C20': {('C08', 'phantom-dependency'), ('C19', 'phantom-dependency')}}
 def mine(prop, pr, sig):
     return pr == prop or (pr, sig) in ALSO.get(prop, ())
 
